@@ -1,77 +1,127 @@
-"""C14 - sequence functions honour their keyword arguments on lists, vectors and strings (find/position/count/remove/substitute family)."""
-import json, os, re, shutil, tempfile
+"""C14 - sequence functions honour their keyword arguments on lists, vectors and strings."""
+import json, os
 
-from lib import common, pipeline
+from lib import common, gen, pipeline
 
 PROP = "C14"
 SPEC = os.path.join(common.VERIF, "spec", "SeqFuns")
-CH = "abcdefghij"
 
 
-def shown(kind, v):
-    parts = [CH[x] if kind == "string" else str(x) for x in v]
-    if kind == "list":
-        return "(" + " ".join(parts) + ")" if parts else "nil"
-    if kind == "vector":
-        return "#(" + " ".join(parts) + ")"
-    return '"' + "".join(parts) + '"'
+TWO = ("search", "mismatch", "replace", "concatenate", "map+", "append", "union", "intersection", "set-difference", "subsetp", "merge")
 
 
-def elem(kind, x):
-    if x < 0:
-        return "nil"
-    return "#\\" + CH[x] if kind == "string" else str(x)
+def norm(v, kind_t):
+    """Projected slip value -> python value of the row's result type (or ('?', v) when it has another shape)."""
+    k = v.get("k")
+    if kind_t in ("seq", "sorted", "set"):
+        if k == "nil":
+            r = []
+        elif k in ("list", "vec"):
+            r = []
+            for e in v["v"]:
+                if e.get("k") == "int":
+                    r.append(e["v"])
+                elif e.get("k") == "chr":
+                    r.append(e["v"] - 98)
+                else:
+                    return ("?", v)
+        elif k == "str":
+            r = [c - 98 for c in v["v"]]
+        else:
+            return ("?", v)
+        return sorted(set(r)) if kind_t == "set" else r
+    if kind_t == "elem" or kind_t == "int":
+        if k == "nil":
+            return None
+        if k == "int":
+            return v["v"]
+        if k == "chr":
+            return v["v"] - 98
+        return ("?", v)
+    if kind_t == "bool":
+        return k != "nil"
+    return ("?", v)
 
 
-def features(c):
-    f = set()
-    if c["cnt"] >= 0:
-        f.add("substitute-with-count")
-    return f
+def expected(row):
+    t, v = row["t"], row["v"]
+    if t in ("seq", "sorted"):
+        return list(v)
+    if t == "set":
+        return sorted(set(v))
+    if t in ("elem", "int"):
+        return None if v["none"] else v["v"]
+    return bool(v)
+
+
+def known_shape(row, kind, cell, got, want):
+    """Open finding whose recorded shape this mismatch has, or None (everything else is a violation)."""
+    fn, kw = row["fn"], row["kw"]
+    if fn.endswith("-if-not") and cell["st"] == "undefined-function":
+        return "if-not-variants-missing"
+    if cell["st"] and (len(row["a"]) == 0 or (fn in TWO and len(row["b"]) == 0)):
+        return "empty-sequence-rejected"
+    if fn == "fill" and cell["st"] == "error" and (kw["en"] == len(row["a"]) or kw["st"] == len(row["a"])):
+        return "fill-bounds-off-by-one"
+    if fn == "search" and not cell["st"]:
+        st1 = max(kw["st"], 0)
+        en1 = len(row["a"]) if kw["en"] < 0 else kw["en"]
+        if en1 - st1 == 0:
+            return "search-empty-pattern"
+    if fn.startswith("substitute") and kw["cnt"] >= 0 and not cell["st"]:
+        return "substitute-with-count"
+    return None
 
 
 def run(tier, seed):
     rep = common.Report(PROP, tier, seed)
     vdrive = common.build_harness()
-    d = tempfile.mkdtemp(prefix="spec-c14-", dir=common.scratch())
-    for f in os.listdir(SPEC):
-        shutil.copy(os.path.join(SPEC, f), d)
-    maxlen = 3 if tier == "quick" else 4
-    open(os.path.join(d, "SeqFuns.cfg"), "w").write(re.sub(r"MaxLen = \d+", f"MaxLen = {maxlen}", open(os.path.join(SPEC, "SeqFuns.cfg")).read()))
-    r = common.run_tlc_with_files(d, "SeqFuns", "SeqFuns.cfg", {}, timeout=1500)
-    if r["errors"]:
-        raise common.Infra("SeqFuns: " + "; ".join(r["errors"][:3]))
-    cases = []
-    for row in common.emitted(r["out"]):
-        row["id"] = len(cases) + 1
-        cases.append(row)
+    quick = tier == "quick"
+    rows, g = gen.bfs(SPEC, "SeqFuns", "SeqFuns.cfg", {"MaxLen": 3 if quick else 4, "NLong": 60 if quick else 1500,
+                                                        "LongLen": 9 if quick else 12}, timeout=3000)
+    for i, r in enumerate(rows):
+        r["id"] = i + 1
     open_feats = {f["feature"]: f for f in common.load_findings(PROP) if f.get("status") == "open"}
-    events = pipeline.drive(vdrive, "c14", [{k: c[k] for k in ("id", "s", "item", "st", "en", "fe", "cnt", "key", "test")} for c in cases], chunk=2000)
+    events = pipeline.drive(vdrive, "c14", [{k: r[k] for k in ("id", "fn", "a", "b", "item", "kw")} for r in rows], chunk=4000)
     by_t = {e["t"]: e for e in events}
-    hit, calls = {}, 0
-    for c in cases:
-        for kind, got in by_t[c["id"]]["res"].items():
-            want = {"find": elem(kind, c["find"]), "position": "nil" if c["position"] < 0 else str(c["position"]),
-                    "count": str(c["count"]), "remove": shown(kind, c["remove"]), "substitute": shown(kind, c["substitute"])}
-            for fn, w in want.items():
-                calls += 1
-                if got[fn] == w:
-                    continue
-                feats = features(c) if fn == "substitute" else set()
-                known = [f for f in feats if f in open_feats]
-                if known:
-                    for f in known:
-                        hit.setdefault(f, []).append(c["id"])
-                else:
-                    rep.violation({"property": PROP, "case": c, "kind": kind, "function": fn, "got": got[fn], "want": w, "keywords": got["kw"]},
-                                  f"({fn} ... {shown(kind, c['s'])}{got['kw']}) => {got[fn]}, want {w}")
+    hit, calls, fns = {}, 0, set()
+    for row in rows:
+        want = expected(row)
+        fns.add(row["fn"])
+        for kind, cell in by_t[row["id"]]["res"].items():
+            calls += 1
+            why = ""
+            got = None
+            if cell.get("fault"):
+                why = f"internal fault {cell['st']}"
+            elif cell["st"]:
+                why = f"signalled {cell['st']}"
+            else:
+                got = norm(cell["v"], row["t"])
+                if row["t"] == "sorted":
+                    key = [x // 10 for x in got] if isinstance(got, list) else None
+                    if not isinstance(got, list) or sorted(got) != sorted(row["a"]) or key != sorted(key):
+                        why = f"=> {got}, want a permutation of the input ordered by the key"
+                elif got != want:
+                    why = f"=> {got}, want {want}"
+            if not why:
+                continue
+            feat = known_shape(row, kind, cell, got, want)
+            if feat in open_feats:
+                hit.setdefault(feat, []).append(row["id"])
+            else:
+                rep.violation({"property": PROP, "row": row, "kind": kind, "call": cell["src"], "observed": cell, "want": want},
+                              f"{cell['src']} {why}")
     for feat, f in open_feats.items():
         if feat in hit:
             rep.known.append(f["summary"] + f" ({len(hit[feat])} calls)")
-    rep.cov.update({"states": r["generated"], "transitions": len(cases), "traces_validated_against_impl": calls, "evaluations": calls,
-                    "distinct_nontrivial": len(cases), "exhaustive": True,
-                    "rule": f"every sequence of length 0..{maxlen} over 3 elements x every in-range :start/:end x :from-end x :count in "
-                            "{none,0,1,2} x :key in {none,1+} x :test in {eql,<}; five functions on lists, vectors and strings; expected "
-                            "results computed by TLC from the transcribed definitions",
-                    "samples": cases[:: max(1, len(cases) // 3)][:3], "probes": {k: len(v) for k, v in hit.items()}})
+    rep.cov.update({"states": g["generated"], "transitions": len(rows), "traces_validated_against_impl": calls, "evaluations": calls,
+                    "distinct_nontrivial": len(rows), "exhaustive": True,
+                    "rule": f"{len(fns)} functions; every sequence of length 0..{3 if quick else 4} over 4 elements x every in-range :start/:end "
+                            "(incl. absent) x :from-end x :count x :key x :test combination the function takes, rendered as list, vector and "
+                            "string; two-sequence functions over a two-letter alphabet with all four bounds; sorting family additionally on "
+                            "random sequences up to length 9/12 with ties; expected results computed by TLC from the transcribed definitions "
+                            "(SeqFuns.tla, whose own laws TLC checks as an invariant); distinct_nontrivial = distinct parameter rows",
+                    "samples": [{k: r[k] for k in ("fn", "a", "b", "item", "kw", "t", "v")} for r in rows[:: max(1, len(rows) // 3)][:3]],
+                    "functions": sorted(fns), "probes": {k: len(v) for k, v in hit.items()}})
     return rep.finish()
